@@ -182,6 +182,105 @@ def writeinitparams_absorbs_write_errors():
     return 'bool', cbool(ok)
 
 
+def _pollthread():
+    for n in _module().body:
+        if isinstance(n, ast.FunctionDef) and n.name == '__pollThread':
+            return n
+    raise Shape('__pollThread not found')
+
+
+def _leaves(node):
+    return any(walk_type(node, typ) for typ in (ast.Raise, ast.Return, ast.Break, ast.Continue))
+
+
+def pollthread_comm_failure_abandons_startup():
+    """__pollThread, start-up loop `while True:` = [try, self.triggerPoll.wait(0.1), break]: the try body ends with
+    `break`; its only handler catches CommunicationFailedError, calls started_callback() once (guarded by
+    `if started_callback:`, then `started_callback = None`) and does not leave the loop itself; so after a failure the
+    thread waits once and goes on WITHOUT a second attempt.  initialReads() stands in an inner try that re-raises
+    CommunicationFailedError and absorbs every other Exception; the first reads are
+    callPollFunc(rfunc, raise_com_failed=True); `if not polled_modules: return` stands between the callback and the
+    regular loop"""
+    f = _pollthread()
+    iwhile = [i for i, s in enumerate(f.body) if isinstance(s, ast.While) and _calls(s, 'writeInitParams')]
+    if len(iwhile) != 1:
+        raise Shape('__pollThread: start-up loop not found')
+    w = f.body[iwhile[0]]
+    ok = isinstance(w.test, ast.Constant) and w.test.value is True and not w.orelse and len(w.body) == 3
+    if not ok or not isinstance(w.body[0], ast.Try):
+        raise Shape('__pollThread: start-up loop is not [try, wait, break]')
+    t, wait, brk = w.body
+    ok = ok and isinstance(brk, ast.Break) and isinstance(wait, ast.Expr) and \
+        src(wait.value).replace(' ', '') == 'self.triggerPoll.wait(0.1)'
+    ok = ok and isinstance(t.body[-1], ast.Break) and not t.orelse and not t.finalbody
+    ok = ok and len(t.handlers) == 1 and src(t.handlers[0].type) == 'CommunicationFailedError'
+    h = t.handlers[0]
+    ok = ok and not _leaves(h) and len(h.body) == 1 and isinstance(h.body[0], ast.If) and \
+        src(h.body[0].test) == 'started_callback' and not h.body[0].orelse
+    if ok:
+        stmts = [src(x).replace(' ', '') for x in h.body[0].body]
+        ok = stmts.count('started_callback()') == 1 and stmts[-1] == 'started_callback=None' and \
+            stmts.index('started_callback()') < len(stmts) - 1 and len(_calls(h, 'started_callback')) == 1
+    # inner try around initialReads
+    inner = [x for x in walk_type(ast.Module(body=t.body, type_ignores=[]), ast.Try) if _calls(ast.Module(body=x.body, type_ignores=[]), 'initialReads')]
+    ok = ok and len(inner) == 1
+    if ok:
+        hs = inner[0].handlers
+        ok = [src(x.type) for x in hs] == ['CommunicationFailedError', 'Exception'] and \
+            len(hs[0].body) == 1 and isinstance(hs[0].body[0], ast.Raise) and hs[0].body[0].exc is None and \
+            not _leaves(hs[1]) and not inner[0].finalbody and not inner[0].orelse
+    cp = [c for c in _calls(ast.Module(body=t.body, type_ignores=[]), 'callPollFunc')]
+    ok = ok and len(cp) == 1 and [(k.arg, const(k.value)) for k in cp[0].keywords] == [('raise_com_failed', True)]
+    # between the callback and the regular loop
+    icb = [i for i, s in enumerate(f.body) if isinstance(s, ast.If) and src(s.test) == 'started_callback']
+    iret = [i for i, s in enumerate(f.body) if isinstance(s, ast.If) and src(s.test).replace(' ', '') == 'notpolled_modules'
+            and len(s.body) == 1 and isinstance(s.body[0], ast.Return)]
+    ipoll = [i for i, s in enumerate(f.body) if isinstance(s, ast.While) and 'doPoll' in src(s)]
+    ok = ok and len(icb) == 1 and len(iret) == 1 and len(ipoll) == 1 and iwhile[0] < icb[0] < iret[0] < ipoll[0]
+    return 'bool', cbool(ok)
+
+
+def callpollfunc_reraises_only_comm_failure():
+    """callPollFunc: rfunc() stands in a try with the single handler `except Exception`; the only raise of the
+    function is the bare `raise` under `if raise_com_failed and isinstance(e, CommunicationFailedError)`; the default of
+    raise_com_failed is False (the regular loop absorbs everything)"""
+    f = _m('callPollFunc')
+    tries = [x for x in f.body if isinstance(x, ast.Try)]
+    if len(tries) != 1:
+        raise Shape('callPollFunc: try not found')
+    t = tries[0]
+    ok = len(t.handlers) == 1 and src(t.handlers[0].type) == 'Exception' and not t.finalbody and not t.orelse
+    raises = walk_type(f, ast.Raise)
+    ok = ok and len(raises) == 1 and raises[0].exc is None
+    guards = [x for x in walk_type(t.handlers[0], ast.If)
+              if src(x.test).replace(' ', '') == 'raise_com_failedandisinstance(e,CommunicationFailedError)']
+    ok = ok and len(guards) == 1 and len(guards[0].body) == 1 and guards[0].body[0] is raises[0]
+    ok = ok and not any(walk_type(f, typ) for typ in (ast.Return,))
+    defaults = f.args.defaults
+    ok = ok and [a.arg for a in f.args.args] == ['self', 'rfunc', 'raise_com_failed'] and len(defaults) == 1 \
+        and const(defaults[0]) is False
+    return 'bool', cbool(ok)
+
+
+def regular_loop_first_pass_polls_every_module():
+    """PollInfo.__init__ sets last_main = 0, and the regular loop calls callPollFunc(mobj.doPoll) for every mobj of
+    `modules` with `pinfo and now > pinfo.last_main + pinfo.interval`: the first pass calls doPoll of every polled module"""
+    pi = find_func(find_class(parse('frappy/modulebase.py'), 'PollInfo'), '__init__')
+    ok = any(src(x).replace(' ', '') == 'self.last_main=0' for x in pi.body)
+    f = _pollthread()
+    loops = [s for s in f.body if isinstance(s, ast.While) and 'doPoll' in src(s)]
+    if len(loops) != 1:
+        raise Shape('__pollThread: regular loop not found')
+    ok = ok and src(loops[0].test) == 'modules'
+    fors = [x for x in loops[0].body if isinstance(x, ast.For) and 'doPoll' in src(x)]
+    ok = ok and len(fors) == 1 and src(fors[0].iter) == 'modules' and src(fors[0].target) == 'mobj'
+    if ok:
+        ifs = [x for x in fors[0].body if isinstance(x, ast.If) and 'doPoll' in src(x)]
+        ok = len(ifs) == 1 and src(ifs[0].test).replace(' ', '') == 'pinfoandnow>pinfo.last_main+pinfo.interval' and \
+            any(src(x).replace(' ', '') == 'mobj.callPollFunc(mobj.doPoll)' for x in ifs[0].body)
+    return 'bool', cbool(ok)
+
+
 def startmodule_starts_thread_iff_polled():
     """startModule: `if self.polledModules: self.__poller = mkthread(self.__pollThread, self.polledModules,
     start_events.get_trigger())`"""
@@ -281,7 +380,9 @@ def start_timeout():
 FACTS = [get_module_early_then_init_then_flag, processcfg_order, processcfg_initialises_every_module,
          descriptive_data_initialises_exported,
          shutdown_stops_pollers_first, sorted_modules_reversed_postorder, pollthread_writes_then_reads_then_started,
-         writeinitparams_absorbs_write_errors, startmodule_starts_thread_iff_polled, initmodule_registers_at_io, attached_get_checks,
+         writeinitparams_absorbs_write_errors, pollthread_comm_failure_abandons_startup,
+         callpollfunc_reraises_only_comm_failure, regular_loop_first_pass_polls_every_module,
+         startmodule_starts_thread_iff_polled, initmodule_registers_at_io, attached_get_checks,
          hasio_creates_io_once_per_uri, multievent_set_only_when_all_triggered, start_timeout]
 
 
